@@ -239,8 +239,8 @@ func posClass(cur, L int) string {
 
 func main() {
 	mon.Main(mon.Spec{
-		Prop: "C31",
-		Rule: "case = disassembler session of 80 commands over a generated multi-block program: down/up/goto with N in {0,1,len-1,len,MaxInt,exactly-to-the-edge,random,negative}, entrypoint, find with single-token digit-free POSIX patterns built from mnemonics, register prefixes and 'Block' and patterns that match the empty text of blank lines (.*, ^$, x*, ...), interleaved with instruction and block moves; non-trivial = session whose cursor reached the first and the last line and that contained a find wrapping around the end; distinct by command history",
+		Prop:        "C31",
+		Rule:        "case = disassembler session of 80 commands over a generated multi-block program: down/up/goto with N in {0,1,len-1,len,MaxInt,exactly-to-the-edge,random,negative}, entrypoint, find with single-token digit-free POSIX patterns built from mnemonics, register prefixes and 'Block' and patterns that match the empty text of blank lines (.*, ^$, x*, ...), interleaved with instruction and block moves; non-trivial = session whose cursor reached the first and the last line and that contained a find wrapping around the end; distinct by command history",
 		Explanation: "oracle: shadow cursor over the listing text read through the hook: down/up move by N or fail when leaving [0,len); goto n fails for n>=len; entrypoint lands on the line of the instruction currently at the entry address (independent rendering); find lands on the first line strictly after the cursor, cyclically, cursor line excluded, whose text matches (Go POSIX regexp as reference), and leaves the cursor when nothing matches; every failing command must leave the cursor unchanged; negative N for down/up may be refused or honoured",
 		Assumptions: []string{"listing and cursor read through the hook disassemble.VerifListing", "regexp.CompilePOSIX of the standard library as matching reference"},
 		Cases: func(t string) int {
